@@ -5,6 +5,7 @@ use simple_sds::bit_vector::{BitVector, Complement, Identity, Transformation};
 use simple_sds::bit_vector::rank_support::RankSupport;
 use simple_sds::bit_vector::select_support::SelectSupport;
 use simple_sds::ops::*;
+use simple_sds::raw_vector::AccessRaw;
 use simple_sds::rl_vector::RLVector;
 use simple_sds::sparse_vector::SparseVector;
 
@@ -101,6 +102,18 @@ pub fn exec_bv(st: &mut State, name: &str, t: &[&str]) -> String {
                 Obj::Bv(x) => x,
                 _ => panic!("harness: from: bad source"),
             };
+            let s = bv_summary(&v);
+            st.objs.insert(name.to_string(), Obj::Bv(v));
+            return s;
+        },
+        // huge <len> <fill> <supports> [flipped positions…] : a vector too large for a word-by-word recipe (beyond 2^32 bits)
+        "huge" => {
+            let len = parse_usize(t[1]);
+            let fill = t[2] == "1";
+            let mut raw = simple_sds::raw_vector::RawVector::with_len(len, fill);
+            for x in &t[4..] { raw.set_bit(parse_usize(x), !fill); }
+            let mut v = BitVector::from(raw);
+            for c in t[3].chars() { match c { 'r' => v.enable_rank(), 's' => v.enable_select(), 'z' => v.enable_select_zero(), '-' => (), _ => panic!("harness: bad support flag") } }
             let s = bv_summary(&v);
             st.objs.insert(name.to_string(), Obj::Bv(v));
             return s;
